@@ -71,3 +71,20 @@ package v2
 //@   at call Silences).Set assert [well-formed-range] tsT(arg2.StartsAt) < tsT(arg2.EndsAt)
 //@   at call Silences).Set assert [not-ending-in-the-past] tsT(arg2.EndsAt) >= ret("time.Now")
 //@   noeffect requestLogger PostableSilenceToProto Silences).Set WithEventRecording
+
+// ---- C16: the API's label filter re-implements the missing-label cases instead of calling Matchers.Matches.
+// For label sets without empty values (alerts: removeEmptyLabels) it is proved to coincide with the matcher-list
+// semantics (a missing label reads as the empty string). Needs one regexp fact: the compiled empty pattern
+// matches exactly the empty string (assumed).
+//@ spec fholds(m *labels.Matcher, s string) bool =
+//@     m.Type == labels.MatchEqual ? s == m.Value : (m.Type == labels.MatchNotEqual ? s != m.Value : (m.Type == labels.MatchRegexp ? reMatch(m.re, s) : !reMatch(m.re, s)))
+//@ spec fvalue(sms map[string]string, n string) string = n in sms ? sms[n] : ""
+//@ func matchFilterLabels
+//@   props C16
+//@   requires forall i int :: 0 <= i && i < len(matchers) ==> matchers[i] != nil
+//@   requires forall k string :: k in sms ==> sms[k] != ""
+//@   assumes forall i int :: 0 <= i && i < len(matchers) ==> (matchers[i].Type == labels.MatchEqual || matchers[i].Type == labels.MatchNotEqual || ((matchers[i].Type == labels.MatchRegexp || matchers[i].Type == labels.MatchNotRegexp) && matchers[i].re != nil))
+//@   assumes forall i int :: 0 <= i && i < len(matchers) ==> (matchers[i].Value == "" && matchers[i].re != nil ==> (forall s string :: reMatch(matchers[i].re, s) == (s == "")))
+//@   ensures [same-meaning-as-matcher-list] result == (forall i int :: 0 <= i && i < len(matchers) ==> fholds(matchers[i], fvalue(sms, matchers[i].Name)))
+//@   loop 1 invariant rangeindex < len(matchers) && (forall k int :: 0 <= k && k <= rangeindex ==> fholds(matchers[k], fvalue(sms, matchers[k].Name)))
+//@   assigns nothing
